@@ -678,7 +678,10 @@ def run_property(pid, modname, tier, seed, level_note, assumptions, bounds, only
           f"inconclusive={len(inconclusive)} validated={validated} wall={wall}s")
     if vio_files:
         return 1
-    if errors and not per_h:
+    if errors or broken:
+        # a configuration that could not be explored (machinery / oracle failure, vacuous harness) is not a pass: reserved
+        # exit code 2, no VIOLATION line. Does not occur on the unchanged tree; on a changed tree it means the change left
+        # the fragment the harness can decide (the evidence lists the configuration)
         return 2
     return 0
 
